@@ -282,7 +282,7 @@ func main() {
 	var all []*node
 	seen := map[string]bool{}
 	add := func(n *node) {
-		if n.depth > 5 || seen[n.expr] || size(n) > 40 {
+		if n.depth > 5 || seen[n.expr] {
 			return
 		}
 		seen[n.expr] = true
@@ -388,7 +388,7 @@ func main() {
 	for tries := 0; len(all) < target && tries < 100000; tries++ {
 		d := 3 + r.IntN(3)
 		n := random(r, d)
-		if n.depth < 3 {
+		if n.depth < 3 || size(n) > 40 {
 			continue
 		}
 		add(n)
